@@ -26,26 +26,33 @@ func isDflt(c byte) bool {
 }
 
 func escPlain(t string) bool {
+	depth := 0
 	for i := 0; i < len(t); i++ {
-		if t[i] == '\\' {
+		switch {
+		case t[i] == '\\':
 			i++
 			if i >= len(t) {
 				return false
 			}
-			continue
-		}
-		if !isDflt(t[i]) {
+		case t[i] == '(':
+			depth++
+		case t[i] == ')':
+			if depth == 0 {
+				return false
+			}
+			depth--
+		case !isDflt(t[i]):
 			return false
 		}
 	}
-	return true
+	return depth == 0
 }
 
 var tablePrefixes = []string{"archived:", "b:", "branch:", "c:", "case:", "content:", "f:", "file:", "fork:", "public:", "r:", "regex:", "repo:", "lang:", "sym:", "t:", "type:", "meta."}
 
 func goodAtom(e *E) string {
 	if !e.Quoted && !escPlain(e.Text) {
-		return "unquoted-value-with-parens-or-blanks"
+		return "unquoted-value-not-one-word"
 	}
 	switch e.Field {
 	case "text":
